@@ -43,7 +43,7 @@ impl<D: DiffHook> Replace<D> {
     /*@*/ pub open spec fn rr(&self) -> Rel { if self.inner().relies() { self.inner().rely_rel() } else { rel_true() } }
     /*@*/ /// weak-checker state after everything received
     /*@*/ pub open spec fn rst(&self) -> St { run_rel(self.rr(), self.rst0_(), self.hist_()) }
-    /*@*/ pub open spec fn x0(&self) -> Xs { xcanon(self.rst0_().oc, self.rst0_().nc, self.rst0_().oe, self.rst0_().ne, self.rst0_().strict) }
+    /*@*/ pub open spec fn x0(&self) -> Xs { xcanon(self.rst0_().oc, self.rst0_().nc, self.rst0_().oe, self.rst0_().ne, self.rst0_().lvl >= 1) }
     /*@*/ /// exact-checker state after everything forwarded
     /*@*/ pub open spec fn xs(&self) -> Xs { xrun(self.rr(), self.x0(), self.em_()) }
     /*@*/ pub open spec fn el(&self) -> int { match self.p_eq() { Some((o, n, l)) => l as int, None => 0 } }
@@ -60,14 +60,14 @@ impl<D: DiffHook> Replace<D> {
     /*@*/     &&& xs.ok && xs.oc == rst.oc - self.el() - self.dl() && xs.nc == rst.nc - self.el() - self.il()
     /*@*/     &&& xs.dels == (rst.dels - r0.dels) - self.dl() && xs.inss == (rst.inss - r0.inss) - self.il() && xs.eqs == (rst.eqs - r0.eqs) - self.el()
     /*@*/     &&& (self.p_eq() matches Some((o, n, l)) ==> self.p_del() is None && self.p_ins() is None && l > 0 && o == xs.oc && n == xs.nc && xs.last != 1
-    /*@*/             && rst.ro == rst.oc && rst.rn == rst.nc && (rst.strict ==> rst.po <= rst.oc && rst.pn <= rst.nc)
+    /*@*/             && rst.ro == rst.oc && rst.rn == rst.nc && (rst.lvl >= 1 ==> rst.po <= rst.oc && rst.pn <= rst.nc)
     /*@*/             && (forall|i: int| 0 <= i < l ==> #[trigger] relk(self.rr(), o as int, n as int, i)))
-    /*@*/     &&& (self.p_del() matches Some((o, l, n)) ==> l > 0 && o == xs.oc && (rst.strict ==> rst.rn <= n && n <= rst.pn))
-    /*@*/     &&& (self.p_ins() matches Some((o, n, l)) ==> l > 0 && n == xs.nc && (rst.strict ==> rst.ro <= o && o <= rst.po))
+    /*@*/     &&& (self.p_del() matches Some((o, l, n)) ==> l > 0 && o == xs.oc && (rst.lvl >= 1 ==> rst.rn <= n && n <= rst.pn))
+    /*@*/     &&& (self.p_ins() matches Some((o, n, l)) ==> l > 0 && n == xs.nc && (rst.lvl >= 1 ==> rst.ro <= o && o <= rst.po))
     /*@*/     &&& ((self.p_del() is Some || self.p_ins() is Some) ==> self.p_eq() is None && xs.last != 2 && rst.ro == xs.oc && rst.rn == xs.nc)
     /*@*/     &&& (rst.fin ==> self.idle())
     /*@*/     &&& (self.inner().relies() ==> self.inner().rely_st().ok && self.inner().rely_st().oc == xs.oc && self.inner().rely_st().nc == xs.nc
-    /*@*/             && self.inner().rely_st().oe >= r0.oe && self.inner().rely_st().ne >= r0.ne && (self.inner().rely_st().strict ==> r0.strict)
+    /*@*/             && self.inner().rely_st().oe >= r0.oe && self.inner().rely_st().ne >= r0.ne && (self.inner().rely_st().lvl >= 1 ==> r0.lvl >= 1) && self.inner().rely_st().lvl <= 1
     /*@*/             && (!rst.fin ==> wf(self.inner().rely_st())))
     /*@*/ }
     /*@*/ pub open spec fn inv(&self) -> bool {
@@ -134,7 +134,7 @@ impl<D: DiffHook> Replace<D> {
     fn flush_del_ins(&mut self) -> (res: Result<(), D::Error>)
     /*@*/     requires old(self).core(), !old(self).rst().fin,
     /*@*/         // the run of changes is over: carried indices are resolved
-    /*@*/         old(self).rst().strict ==> old(self).rst().po <= old(self).rst().oc && old(self).rst().pn <= old(self).rst().nc,
+    /*@*/         old(self).rst().lvl >= 1 ==> old(self).rst().po <= old(self).rst().oc && old(self).rst().pn <= old(self).rst().nc,
     /*@*/     ensures
     /*@*/         final(self).hist_() == old(self).hist_(), final(self).rst0_() == old(self).rst0_(), final(self).it0_() == old(self).it0_(),
     /*@*/         hook_frame(old(self).inner(), final(self).inner(), res),
@@ -196,14 +196,14 @@ impl<D: DiffHook> Replace<D> {
         /*@*/     assert(xs.oc == rst.oc - self.el() - self.dl() && xs.nc == rst.nc - self.el() - self.il());
         /*@*/     assert(xs.dels == (rst.dels - r0.dels) - self.dl() && xs.inss == (rst.inss - r0.inss) - self.il() && xs.eqs == (rst.eqs - r0.eqs) - self.el());
         /*@*/     assert(self.p_eq() matches Some((o, n, l)) ==> self.p_del() is None && self.p_ins() is None && l > 0 && o == xs.oc && n == xs.nc && xs.last != 1
-        /*@*/             && rst.ro == rst.oc && rst.rn == rst.nc && (rst.strict ==> rst.po <= rst.oc && rst.pn <= rst.nc));
+        /*@*/             && rst.ro == rst.oc && rst.rn == rst.nc && (rst.lvl >= 1 ==> rst.po <= rst.oc && rst.pn <= rst.nc));
         /*@*/     assert(self.p_eq() matches Some((o, n, l)) ==> (forall|i: int| 0 <= i < l ==> #[trigger] relk(self.rr(), o as int, n as int, i)));
-        /*@*/     assert(self.p_del() matches Some((o, l, n)) ==> l > 0 && o == xs.oc && (rst.strict ==> rst.rn <= n && n <= rst.pn));
-        /*@*/     assert(self.p_ins() matches Some((o, n, l)) ==> l > 0 && n == xs.nc && (rst.strict ==> rst.ro <= o && o <= rst.po));
+        /*@*/     assert(self.p_del() matches Some((o, l, n)) ==> l > 0 && o == xs.oc && (rst.lvl >= 1 ==> rst.rn <= n && n <= rst.pn));
+        /*@*/     assert(self.p_ins() matches Some((o, n, l)) ==> l > 0 && n == xs.nc && (rst.lvl >= 1 ==> rst.ro <= o && o <= rst.po));
         /*@*/     assert((self.p_del() is Some || self.p_ins() is Some) ==> self.p_eq() is None && xs.last != 2 && rst.ro == xs.oc && rst.rn == xs.nc);
         /*@*/     assert(rst.fin ==> self.idle());
         /*@*/     assert(self.inner().relies() ==> self.inner().rely_st().ok && self.inner().rely_st().oc == xs.oc && self.inner().rely_st().nc == xs.nc);
-        /*@*/     assert(self.inner().relies() ==> self.inner().rely_st().oe >= r0.oe && self.inner().rely_st().ne >= r0.ne && (self.inner().rely_st().strict ==> r0.strict));
+        /*@*/     assert(self.inner().relies() ==> self.inner().rely_st().oe >= r0.oe && self.inner().rely_st().ne >= r0.ne && (self.inner().rely_st().lvl >= 1 ==> r0.lvl >= 1) && self.inner().rely_st().lvl <= 1);
         /*@*/     assert(self.inner().relies() ==> (!rst.fin ==> wf(self.inner().rely_st())));
         /*@*/ }
         Ok(())
@@ -267,14 +267,14 @@ impl<D: DiffHook> DiffHook for Replace<D> {
         /*@*/     assert(xs.oc == rst.oc - self.el() - self.dl() && xs.nc == rst.nc - self.el() - self.il());
         /*@*/     assert(xs.dels == (rst.dels - r0.dels) - self.dl() && xs.inss == (rst.inss - r0.inss) - self.il() && xs.eqs == (rst.eqs - r0.eqs) - self.el());
         /*@*/     assert(self.p_eq() matches Some((o, n, l)) ==> self.p_del() is None && self.p_ins() is None && l > 0 && o == xs.oc && n == xs.nc && xs.last != 1
-        /*@*/             && rst.ro == rst.oc && rst.rn == rst.nc && (rst.strict ==> rst.po <= rst.oc && rst.pn <= rst.nc));
+        /*@*/             && rst.ro == rst.oc && rst.rn == rst.nc && (rst.lvl >= 1 ==> rst.po <= rst.oc && rst.pn <= rst.nc));
         /*@*/     assert(self.p_eq() matches Some((o, n, l)) ==> (forall|i: int| 0 <= i < l ==> #[trigger] relk(self.rr(), o as int, n as int, i)));
-        /*@*/     assert(self.p_del() matches Some((o, l, n)) ==> l > 0 && o == xs.oc && (rst.strict ==> rst.rn <= n && n <= rst.pn));
-        /*@*/     assert(self.p_ins() matches Some((o, n, l)) ==> l > 0 && n == xs.nc && (rst.strict ==> rst.ro <= o && o <= rst.po));
+        /*@*/     assert(self.p_del() matches Some((o, l, n)) ==> l > 0 && o == xs.oc && (rst.lvl >= 1 ==> rst.rn <= n && n <= rst.pn));
+        /*@*/     assert(self.p_ins() matches Some((o, n, l)) ==> l > 0 && n == xs.nc && (rst.lvl >= 1 ==> rst.ro <= o && o <= rst.po));
         /*@*/     assert((self.p_del() is Some || self.p_ins() is Some) ==> self.p_eq() is None && xs.last != 2 && rst.ro == xs.oc && rst.rn == xs.nc);
         /*@*/     assert(rst.fin ==> self.idle());
         /*@*/     assert(self.inner().relies() ==> self.inner().rely_st().ok && self.inner().rely_st().oc == xs.oc && self.inner().rely_st().nc == xs.nc);
-        /*@*/     assert(self.inner().relies() ==> self.inner().rely_st().oe >= r0.oe && self.inner().rely_st().ne >= r0.ne && (self.inner().rely_st().strict ==> r0.strict));
+        /*@*/     assert(self.inner().relies() ==> self.inner().rely_st().oe >= r0.oe && self.inner().rely_st().ne >= r0.ne && (self.inner().rely_st().lvl >= 1 ==> r0.lvl >= 1) && self.inner().rely_st().lvl <= 1);
         /*@*/     assert(self.inner().relies() ==> (!rst.fin ==> wf(self.inner().rely_st())));
         /*@*/ }
         Ok(())
